@@ -395,6 +395,23 @@ def c17(res, tier, seed, lib):
         if None not in seq:
             ordered = all(seq[j] <= seq[j + 1] for j in range(len(seq) - 1)) if not rev else all(seq[j] >= seq[j + 1] for j in range(len(seq) - 1))
             res.check(ordered, "non-decreasing-in-key", "cli:sort-by", inp, "%s keys %s" % (got, seq))
+        # stability: among equal keys the input order is kept (packed-RGB order under --unique)
+        if seq and None not in seq:
+            pos = {}
+            for idx, i in enumerate(its):
+                pos.setdefault(i.hsl, idx)
+            okst = True
+            for a in range(len(got) - 1):
+                if seq[a] == seq[a + 1] and got[a] != got[a + 1]:
+                    ia, ib = info_by_print(its, got[a]), info_by_print(its, got[a + 1])
+                    if uniq:
+                        first_ok = ia.packed < ib.packed
+                    else:
+                        first_ok = pos[got[a]] < pos[got[a + 1]]
+                    if rev:
+                        first_ok = not first_ok
+                    okst = okst and first_ok
+            res.check(okst, "equal-keys-keep-order", "cli:sort-by", inp, "%s keys %s" % (got, seq))
         # model: exact expected sequence
         op = "sort %d %d %d %s" % (1 if uniq else 0, 1 if rev else 0, len(its), " ".join("%d %d" % (i.packed, i.keys[key]) for i in its))
         lines.append(op); meta.append((op, printed, got))
@@ -433,6 +450,13 @@ def c17(res, tier, seed, lib):
             want = [table[int(k)] for k in t[1:]] if t and t[0] == "ok" else None
             if want != got:
                 res.disagree(op[:200], " ".join(got)[:600], " ".join(want or [])[:600])
+
+
+def info_by_print(its, printed):
+    for i in its:
+        if i.hsl == printed:
+            return i
+    return None
 
 
 def infos_packed(printed_lines):
